@@ -64,10 +64,13 @@ class SimFS:
         self.opened = []
         self.eintr_seen = 0
 
-    def end_step(self):
-        # a crash leaves Python-level buffers behind; make sure nothing of them reaches the disk later
-        for h in self.handles:
-            h.dead = True
+    def end_step(self, crashed=True):
+        # a crash leaves Python-level buffers behind; make sure nothing of them reaches the disk later.  A step that
+        # merely failed (crashed=False) is another matter: the process lives on, and a handle the code under test left
+        # open flushes whatever it still buffers whenever it is finally closed or collected - that is kept real
+        if crashed or self.dead:
+            for h in self.handles:
+                h.dead = True
         self.handles = []
         self.dead = False
         self.plan = {}
@@ -541,6 +544,81 @@ def _install_os_seam():
             return _REAL[name](path, *a, **kw)
         return f
 
+    # descriptor-level calls on descriptors the seam handed out (advisory locks, truncation, stat, data sync)
+    import fcntl as _fcntl
+    _REAL.update({"flock": _fcntl.flock, "lockf": _fcntl.lockf, "os_ftruncate": os.ftruncate, "os_truncate": os.truncate,
+                  "os_fstat": os.fstat, "os_fdatasync": getattr(os, "fdatasync", os.fsync)})
+
+    def fd_of(x):
+        try:
+            return x if isinstance(x, int) else x.fileno()
+        except Exception:
+            return None
+
+    def flock(fd, operation):
+        fs = fs_or_none()
+        if fs is not None and fd_of(fd) in fs.fds:
+            fs._count("fcntl.flock")
+            return None          # one process, one writer at a time: an advisory lock is always granted
+        return _REAL["flock"](fd, operation)
+
+    def lockf(fd, cmd, *a):
+        fs = fs_or_none()
+        if fs is not None and fd_of(fd) in fs.fds:
+            fs._count("fcntl.lockf")
+            return None
+        return _REAL["lockf"](fd, cmd, *a)
+
+    def truncate_to(fs, path, length):
+        buf = fs.files.setdefault(path, bytearray())
+        if fs.dead:
+            return None
+        if length < len(buf):
+            del buf[length:]
+        else:
+            buf.extend(b"\x00" * (length - len(buf)))
+        fs.touched.add(path)
+        return None
+
+    def ftruncate(fd, length):
+        fs = fs_or_none()
+        if fs is not None and fd in fs.fds:
+            fs._count("os.ftruncate")
+            return truncate_to(fs, fs.fds[fd]["path"], length)
+        return _REAL["os_ftruncate"](fd, length)
+
+    def truncate(path, length):
+        fs = fs_or_none()
+        if fs is not None and isinstance(path, int) and path in fs.fds:
+            return ftruncate(path, length)
+        if fs is not None and not isinstance(path, int) and _is_sim(path):
+            fs._count("os.truncate")
+            p = os.fspath(path)
+            if p not in fs.files:
+                raise FileNotFoundError(errno.ENOENT, "sim: no such file or directory", p)
+            return truncate_to(fs, p, length)
+        return _REAL["os_truncate"](path, length)
+
+    def fstat(fd):
+        fs = fs_or_none()
+        if fs is not None and fd in fs.fds:
+            return fs.stat(fs.fds[fd]["path"])
+        return _REAL["os_fstat"](fd)
+
+    def fdatasync(fd):
+        fs = fs_or_none()
+        if fs is not None and fd in fs.fds:
+            fs._count("os.fdatasync")
+            return None
+        return _REAL["os_fdatasync"](fd)
+
+    _fcntl.flock = flock
+    _fcntl.lockf = lockf
+    os.ftruncate = ftruncate
+    os.truncate = truncate
+    os.fstat = fstat
+    if hasattr(os, "fdatasync"):
+        os.fdatasync = fdatasync
     os.lstat = os_lstat
     os.path.isdir = isdir
     os.listdir = listdir
